@@ -80,6 +80,7 @@ type memConn struct {
 	shortWrite      int            // index of Write call that transfers only half and returns io.ErrShortWrite
 	afterWrite      map[int]func() // hook after the n-th write has been logged (before returning)
 	gate            chan struct{}  // if non-nil, every Write waits for a token after logging "entered"
+	lateCopy        bool           // with a gate: the second half of the bytes is taken from the caller's buffer only when the gate opens (a transport that has accepted part of a write)
 	gateEntered     chan int
 	nWrite          int
 	nRead           int
@@ -195,6 +196,11 @@ func (c *memConn) Write(p []byte) (int, error) {
 			entered <- idx
 		}
 		<-gate
+		c.mu.Lock()
+		if c.lateCopy && err == nil {
+			copy(data[len(data)/2:], p[len(data)/2:len(data)])
+		}
+		c.mu.Unlock()
 	}
 	if peer != nil {
 		if c.rechunk != nil {
